@@ -1,11 +1,52 @@
-//! Component-level operations that must run inside a worker (they need the process-global CONFIG).
+//! Component-level operations that must run inside a worker (they need the process-global CONFIG
+//! or the hook clock).
 use serde_json::{Value, json};
+use snel_db::engine::core::EventIdGenerator;
 use snel_db::frontend::context::FrontendContext;
+use snel_db::verif_hooks as hooks;
 use std::sync::Arc;
 
 pub async fn handle(req: &Value, _ctx: &Arc<FrontendContext>) -> Value {
     let what = req["what"].as_str().unwrap_or("");
     match what {
+        // lifetimes: [{ "script": [ms relative to the lifetime's base...], "n": calls, "shard": id, "jump": ms }]
+        // a fresh generator per lifetime; the base of a lifetime is the last clock reading of the previous
+        // one plus `jump` (so "continues", "repeats" (0) and "precedes" (< 0) are exact)
+        "idgen" => {
+            let mut out = vec![];
+            let mut bases = vec![];
+            let mut base: i64 = req["base"].as_i64().unwrap_or(1_700_000_000_000);
+            // highest millisecond any earlier lifetime can have used
+            let mut prev_high: i64 = i64::MIN;
+            for lt in req["lifetimes"].as_array().cloned().unwrap_or_default() {
+                base += lt["jump"].as_i64().unwrap_or(0);
+                if lt["ahead_of_previous"].as_bool() == Some(true) && base <= prev_high {
+                    base = prev_high + 1;
+                }
+                let script: Vec<u64> = lt["script"]
+                    .as_array()
+                    .map(|a| a.iter().filter_map(|v| v.as_i64()).map(|v| (base + v).max(0) as u64).collect())
+                    .unwrap_or_default();
+                let n = lt["n"].as_u64().unwrap_or(0);
+                let shard = lt["shard"].as_u64().unwrap_or(0) as u16;
+                hooks::set_clock_millis_script(script);
+                bases.push(base);
+                let ids = tokio::task::spawn_blocking(move || {
+                    let mut g = EventIdGenerator::new();
+                    (0..n).map(|_| g.next(shard).raw()).collect::<Vec<u64>>()
+                })
+                .await
+                .unwrap_or_default();
+                // where the clock stands now (the reading itself advances a repeating tail by one)
+                let max_script = lt["script"].as_array().map(|a| a.iter().filter_map(|v| v.as_i64()).max().unwrap_or(0)).unwrap_or(0);
+                let final_reading = hooks::clock_millis_override().map(|v| v as i64).unwrap_or(base);
+                prev_high = prev_high.max(base + max_script).max(final_reading);
+                base = final_reading;
+                out.push(json!(ids));
+            }
+            hooks::set_clock_millis_script(vec![]);
+            json!({"lifetimes": out, "bases": bases})
+        }
         _ => json!({"error": format!("unknown internal op {}", what)}),
     }
 }
